@@ -189,6 +189,11 @@ def resize(r, F):
             same = any(tsl.upvars & c.upvars for c in csl) or any((tsl.args & c.args) for c in csl)
             r.require(same, g, "evict-target==new-capacity", "evict target and stored capacity are the same upvar %s" % sorted(tsl.upvars),
                       "resize evicts to a different value than the capacity it stores", ln=b.term.ln)
+            # unconditional: once the algorithm accepted the new capacity every path evicts down to it (growing can still have to
+            # evict: a shard may legitimately sit above its old capacity — oversized entry, entries that were pinned)
+            r.require(g.must_pass(0, [b.idx]), g, "evict(new) on every path", "the bound is re-established whether the capacity shrank or grew",
+                      "resize evicts down to the new capacity only on some paths (e.g. only when shrinking): a shard that was legitimately over its old "
+                      "capacity (oversized entry, formerly pinned entries) stays above the new one with nothing held", ln=b.term.ln)
             # store dominates evict
             r.require(any(g2 is g and g.pos_dominates((u["block"], u["idx"]), (b.idx, 10 ** 6)) for g2, u in caps), g, "capacity-before-evict",
                       "capacity stored before evicting", "resize evicts before updating the shard capacity", ln=b.term.ln)
@@ -260,6 +265,6 @@ def run(chk, F):
     chk.run_rule("C05.paired-accounting", "every index mutation of a shard is matched by the usage and entries updates on every path; only shard methods write them", 12, paired_accounting, F)
     chk.run_rule("C05.evict-loop", "evict pops exactly while usage > target, stops on an empty container, removes every victim from the index", 3, evict_loop, F)
     chk.run_rule("C05.target", "emplace evicts to capacity - weight(new) before inserting", 2, target, F)
-    chk.run_rule("C05.resize", "resize stores the new shard capacity and evicts down to that same value", 4, resize, F)
+    chk.run_rule("C05.resize", "resize stores the new shard capacity and evicts down to that same value on every path", 5, resize, F)
     chk.run_rule("C05.capacity-split", "construction and resize derive shard capacities from the one quotient/remainder split by shard index; fresh shards start empty", 5, capacity_split, F)
     chk.run_rule("C05.weight-once", "an entry's weight is computed once by the weighter and never rewritten", 2, weight_once, F)
